@@ -54,6 +54,10 @@ def features(case, leaf=None):
             f.append("nodictoff")
         if o["extraWidth"]:
             f.append("widebw")
+        if o.get("minW0"):
+            f.append("idxw0")
+        if o.get("mixEnc", "all") != "all":
+            f.append("dict-" + o["mixEnc"])
     if o["style"] != "rle" and (leaf is None or leaf["maxDef"] > 0 or leaf["maxRep"] > 0):
         f.append("lvl-" + o["style"])
     if leaf is not None and leaf["maxRep"] > 0:
